@@ -48,6 +48,9 @@ def run(chk):
                     n_variants += 1
                     text = wire.render(cmd)
                     taints = [f for f in _flat(cmd) if f[0] == "taint"]
+                    if wire.lost(_flat(cmd)):
+                        r1.undecided("Client.%s:wire" % m.name, "Client.%s builds its command in a way the wire domain cannot follow (a piece of it is unknown, or the byte string was widened in a loop): what is sent is not known" % m.name)
+                        continue
                     if taints:
                         what = wire.describe(taints[0][1])
                         key = "Client.%s:unsanitised:%s" % (m.name, _short(what))
@@ -56,7 +59,8 @@ def run(chk):
                             r1.fail(key, "Client.%s puts `%s` on the command line without a sanitizer: a value containing a space or CR LF changes the command(s) the server parses (wire: %r)" % (m.name, what, text), fn=m, node=ev["site"])
                         continue
                     if not g.match(text):
-                        key = "Client.%s:malformed:%s" % (m.name, _short(text))
+                        # (one key or several: the same malformed shape, one construct)
+                        key = "Client.%s:malformed:%s" % (m.name, _short(text.replace("‹K›", "‹K+›")))
                         if key not in seen_bad:
                             seen_bad.add(key)
                             r1.fail(key, "Client.%s can send %r, which is not a well-formed `%s` command (%s)" % (m.name, text, verb, g.pattern), fn=m, node=ev["site"])
@@ -93,6 +97,12 @@ def run(chk):
     from . import rules_C04, report
 
     report.include_rules(chk, r3, rules_C04, ("C04.R4",), "key_prefix is applied to every key and to nothing that is not a key")
+    # an illegal key is refused before any part of the request is on the wire, for an illegal key anywhere in a batch
+    # and whatever ignore_exc (decided end to end, C20.R6)
+    from . import rules_C20
+
+    report.include_rules(chk, r2, rules_C20, ("C20.R6",), "an argument that cannot be sent as given is rejected before anything is sent")
+    report.include_rules(chk, r3, rules_C20, ("C20.R5",), "every key that reaches the wire was validated by the one rule, with nothing switched off for some callers")
 
     # ------------------------------------------------------------------ R4 integer sanitizers
     r4 = chk.rule("C02.R4", "integer sanitizers: _check_integer returns only for int and renders with str(); _check_cas returns only digit strings; everything else raises MemcacheIllegalInputError")
